@@ -397,7 +397,7 @@ func (d *Disk) WriteAt(p []byte, off int64) (int, error) {
 		if d.record {
 			data := make([]byte, n)
 			copy(data, p[:n])
-			d.appendOp(Op{Kind: OpWrite, Off: off, Data: data, OK: err == nil && n == len(p)})
+			d.appendOp(Op{Kind: OpWrite, Off: off, Data: data, OK: err == nil})
 		}
 	} else if d.record {
 		d.appendOp(Op{Kind: OpWrite, Off: off, OK: false})
